@@ -18,6 +18,12 @@
      ODisc     the KILL handler returned an error (event loop ends, the executor re-subscribes)
      OCrash    a nil dereference: the executor process dies
 
+   The model follows the code after the repairs of C17-a/b/c/d/f/g/h/i (fix: commits): KILL stops
+   the RUNNING timer and, for a basic task, kills the group; ensureBasicTaskKilled never blocks and
+   sweeps the group of a reaped child; ControllableTask.Kill refuses without a client and sweeps the
+   process group when it returns.  Left as they are (recorded): KILL during the start-up poll of a
+   controllable task (C17-e), KILL before the dial returned (C17-j), KILL of a running hook (C17-b).
+
    OS facts taken as given (named in props.d/C17.json): SIGKILL kills; a signal to the group reaches
    every member; kill(2) on a group that only holds zombies succeeds; a zombie still "exists" for
    pidExists until Wait reaps it; nobody but the executor's reaper reaps the direct child.
@@ -121,43 +127,31 @@ Definition kill_group (c : child) : child :=
 Definition child_live (c : child) : bool :=
   match ch_st c with PRun => true | _ => ch_gc c end.
 
-(* rest of ensureBasicTaskKilled after the send on the pending channel went through:
-   pid := t.taskCmd.Process.Pid ; syscall.Kill(-pid, SIGKILL) ; answer *)
-Definition stop_kill_part (s : bst) : bst * list out :=
+(* ensureBasicTaskKilled of a basic task (after the repairs C17-d/h/i): a child that has been
+   reaped (ProcessState != nil) only has its process group swept; otherwise TASK_KILLED is posted
+   on the pending channel without blocking and the group gets SIGKILL.  No answer is part of it. *)
+Definition ensure_killed (s : bst) : bst * list out :=
   match b_cmd s with
-  | None => (bcrash s, [OCrash])        (* only for a handler unblocked after Kill dropped the handle *)
+  | None => (s, [])
   | Some i =>
     match nth_error (b_children s) i with
-    | None => (s, [OResp RStop true])
-    | Some c =>
-      if group_has_proc c
-      then (set_children s (upd i (kill_group c) (b_children s)), [OSig ToGroup KILL9; OResp RStop true])
-      else (s, [OSig ToGroup KILL9; OResp RStop false])     (* ESRCH is returned as the transition error *)
-    end
-  end.
-
-Definition stop_push (s : bst) : bst * list out :=
-  match b_pending s with
-  | Some _ => (set_blocked s (S (b_blocked s)), [])          (* channel full: the handler blocks *)
-  | None => stop_kill_part (set_pending s (Some KILLED))
-  end.
-
-(* ensureBasicTaskKilled of a basic task *)
-Definition stop_basic (s : bst) : bst * list out :=
-  match b_cmd s with
-  | None => (s, [OResp RStop true])
-  | Some i =>
-    match nth_error (b_children s) i with
-    | None => (s, [OResp RStop true])
+    | None => (s, [])
     | Some c =>
       match ch_st c with
-      | PReaped (DExit _) => (s, [OResp RStop true])           (* ProcessState.Exited() *)
-      | PReaped DSig => stop_push s                             (* reaped, but not "exited" *)
+      | PReaped _ =>
+        (set_children s (upd i (kill_group c) (b_children s)), [OSig ToGroup KILL9])
       | PRun | PZombie _ =>                                     (* ProcessState is still nil *)
-        if et_stop_guards_nil then stop_push s else (bcrash s, [OCrash])
+        if et_stop_guards_nil
+        then (set_children (match b_pending s with Some _ => s | None => set_pending s (Some KILLED) end)
+                           (upd i (kill_group c) (b_children s)), [OSig ToGroup KILL9])
+        else (bcrash s, [OCrash])
       end
     end
   end.
+
+Definition stop_basic (s : bst) : bst * list out :=
+  let '(s1, o) := ensure_killed s in
+  if b_crashed s1 then (s1, o) else (s1, o ++ [OResp RStop true]).
 
 Definition start_child (b : beh) (s : bst) : bst :=
   mkB (b_launched s) (b_active s) (b_timer s) (Some (length (b_children s)))
@@ -180,14 +174,7 @@ Definition breap (s : bst) (i : nat) : bst * list out :=
     let s1 := set_children s (upd i (mkChild (PReaped d) gc) (b_children s)) in
     match b_pending s1 with
     | None => (s1, [OEvent true (exit_code d) (default_final d)])
-    | Some p =>
-      let s2 := set_pending s1 None in
-      match b_blocked s2 with
-      | O => (s2, [OEvent false (exit_code d) p])
-      | S n =>    (* the receive lets one blocked sender through; it carries on with the kill *)
-        let '(s3, o) := stop_kill_part (set_pending (set_blocked s2 n) (Some KILLED)) in
-        (s3, OEvent false (exit_code d) p :: o)
-      end
+    | Some p => (set_pending s1 None, [OEvent false (exit_code d) p])
     end
   | _ => (s, [])
   end.
@@ -205,8 +192,11 @@ Definition bstep (b : beh) (hook : bool) (s : bst) (a : action) : bst * list out
     else (s, [])
   | AKill =>
     if b_active s
-    then (mkB (b_launched s) false (b_timer s) None (b_children s) (b_pending s) (b_blocked s) false,
-          [OStatus FINISHED])                               (* handle dropped, child not signalled *)
+    then (* the RUNNING timer is stopped; a basic task's group is killed (no-op for hooks); handle dropped *)
+      let '(s1, o1) := if hook then (s, []) else ensure_killed s in
+      if b_crashed s1 then (s1, o1)
+      else (mkB (b_launched s1) false false None (b_children s1) (b_pending s1) (b_blocked s1) false,
+            o1 ++ [OStatus FINISHED])
     else (s, [ODisc])                                       (* "invalid task ID" *)
   | AReq r => breq b hook s r
   | AExit i =>
@@ -264,9 +254,12 @@ Definition deliver (b : beh) (t : tgt) (sg : sig) (s : cst) : cst :=
 Definition pid_exists (s : cst) : bool :=
   match c_proc s with PReaped _ => false | _ => true end.
 
+(* when Kill returns (KFin) it sweeps the process group with SIGKILL (repair C17-g); the
+   doTermIntKill of a failed dial (c_tgt = ToGroup) signals the group all along *)
 Definition set_kpc (s : cst) (k : kpc) : cst :=
   mkC (c_phase s) (c_rpc s) (match k with KFin => false | _ => c_active s end) (c_pending s) k
-      (c_tgt s) (c_proc s) (c_gc s) (c_done s) (c_crashed s).
+      (c_tgt s) (c_proc s)
+      (match k, c_tgt s with KFin, ToPid => false | _, _ => c_gc s end) (c_done s) (c_crashed s).
 
 Definition send_sig (b : beh) (sg : sig) (next : kpc) (s : cst) : cst * list out :=
   (set_kpc (deliver b (c_tgt s) sg s) next, [OSig (c_tgt s) sg]).
@@ -289,7 +282,9 @@ Definition kill_step (b : beh) (s : cst) : cst * list out :=
 (* ControllableTask.Kill up to its first sleep *)
 Definition ckill (b : beh) (s : cst) : cst * list out :=
   if negb (c_active s) then (s, [ODisc])
-  else if negb (c_rpc s) then (ccrash s, [OCrash])               (* t.rpc.GetState on a nil client *)
+  else if negb (c_rpc s)     (* no client (not dialled yet, or a Kill is under way): Kill returns an error,
+                                the KILL handler then drops the task from activeTasks (repair C17-f) *)
+  then (mkC (c_phase s) false false (c_pending s) (c_kpc s) (c_tgt s) (c_proc s) (c_gc s) (c_done s) false, [])
   else
     let alive := match c_proc s with PRun => true | _ => false end in
     let in_wait := match c_phase s with CWait => true | _ => false end in
@@ -654,28 +649,6 @@ Definition ev_eqb (a b : bool * Z * status) : bool :=
 Definition resp_eqb (a b : req * option bool) : bool :=
   req_eqb (fst a) (fst b) && option_eqb Bool.eqb (snd a) (snd b).
 
-(* a STOP that finds its child reaped after a death by signal sends SIGKILL to a group without
-   live members: whether kill(2) then fails depends on whether orphaned zombies are still around
-   (init's reaping), so the ok flag of exactly that answer is not compared *)
-Fixpoint stale_stop_flags (b : beh) (hook : bool) (s : bst) (l : list hact) : list bool :=
-  match l with
-  | [] => []
-  | h :: r =>
-    let stale :=
-      match h, b_cmd s with
-      | HReq RStop, Some i =>
-        match nth_error (b_children s) i with
-        | Some (mkChild (PReaped DSig) _) => negb hook && b_active s && negb (b_crashed s)
-        | _ => false
-        end
-      | _, _ => false
-      end in
-    match h with
-    | HReq _ => stale :: stale_stop_flags b hook (fst (bhstep b hook s h)) r
-    | _ => stale_stop_flags b hook (fst (bhstep b hook s h)) r
-    end
-  end.
-
 Fixpoint resps_eqb (flags : list bool) (a b : list (req * option bool)) : bool :=
   match a, b with
   | [], [] => true
@@ -711,12 +684,7 @@ Definition obs_eqb (flags : list bool) (m o : mobs) : bool :=
    (Bool.eqb (mo_main_alive m) (mo_main_alive o) && Bool.eqb (mo_gc_alive m) (mo_gc_alive o))).
 
 Definition corr17 (c : c17_case) : bool :=
-  let flags := match k_kind c with
-               | KCtl => []
-               | KHook => stale_stop_flags (k_beh c) true binit (k_sched c)
-               | KBasic => stale_stop_flags (k_beh c) false binit (k_sched c)
-               end in
-  obs_eqb flags (model_obs (k_kind c) (k_beh c) (k_sched c)) (k_obs c).
+  obs_eqb [] (model_obs (k_kind c) (k_beh c) (k_sched c)) (k_obs c).
 
 (* ---------- the property evaluated on what the implementation did ---------- *)
 Fixpoint before_first (f : hact -> bool) (g : hact -> bool) (l : list hact) : bool :=
@@ -728,6 +696,7 @@ Fixpoint before_first (f : hact -> bool) (g : hact -> bool) (l : list hact) : bo
 Definition is_kill (h : hact) := match h with HKill => true | _ => false end.
 Definition is_timer (h : hact) := match h with HTimer => true | _ => false end.
 Definition is_ready (h : hact) := match h with HReady => true | _ => false end.
+Definition is_listen (h : hact) := match h with HListen => true | _ => false end.
 Definition is_exit (h : hact) := match h with HExit => true | _ => false end.
 Definition is_settle (h : hact) := match h with HSettle => true | _ => false end.
 Definition is_stop (h : hact) := match h with HReq RStop => true | _ => false end.
@@ -799,6 +768,18 @@ Fixpoint stale_posted (sigdeath : bool) (cur : curst) (l : list hact) : bool :=
   | _ :: r => stale_posted sigdeath cur r
   end.
 
+(* a START while the child of the previous START has neither been stopped nor left: the command
+   handle is overwritten and the earlier child is out of the executor's reach (protocol misuse) *)
+Fixpoint double_start (cur : bool) (l : list hact) : bool :=
+  match l with
+  | [] => false
+  | HReq RStart :: r => if cur then true else double_start true r
+  | HReq RStop :: r => double_start false r
+  | HExit :: r => double_start false r
+  | HKill :: _ => false
+  | _ :: r => double_start cur r
+  end.
+
 (* 0 = the property holds on this observation; codes documented in props.d/C17.json *)
 Definition mon17 (c : c17_case) : N :=
   let o := k_obs c in
@@ -809,7 +790,9 @@ Definition mon17 (c : c17_case) : N :=
   let killed := existsb is_kill l in
   let stale := stale_posted (match bh_death (k_beh c) with DSig => true | _ => false end) CuNone l in
   if mo_crashed o then
-    if ctl && killed && negb (before_first is_ready is_kill l) then 5       (* KILL before the task was ready *)
+    if ctl && killed && negb (before_first is_ready is_kill l) then
+      if before_first is_listen is_kill l then 5                             (* KILL during the start-up poll *)
+      else 19                                                                (* KILL before the dial returned *)
     else if ctl && Nat.leb 2 (count_kills_before_settle (from_first_kill l)) then 6   (* second KILL during the first *)
     else if basic && killed && stale then 17   (* a blocked STOP handler released after KILL dropped the handle *)
     else 10
@@ -823,9 +806,13 @@ Definition mon17 (c : c17_case) : N :=
   else if negb ctl && unanswered_active (negb basic) l (mo_resps o) false false then
     if basic && stale then 11
     else 14
-  else if negb ctl && killed && (mo_main_alive o || mo_gc_alive o) then 4    (* KILL left the child running *)
+  else if negb ctl && killed && (mo_main_alive o || mo_gc_alive o) then
+    if basic then (if double_start false l then 22 else 4) else 18           (* KILL left the child running *)
+  else if ctl && killed && negb (before_first is_listen is_kill l) && mo_main_alive o then 20   (* KILL before the dial: refused *)
   else if ctl && killed && existsb is_settle (from_first_kill l) && mo_main_alive o then 8
-  else if ctl && killed && existsb is_settle (from_first_kill l) && mo_gc_alive o then 7
+  else if ctl && killed && existsb is_settle (from_first_kill l) && mo_gc_alive o then
+    (* the task had already failed at start-up when KILL came: left over by Launch, not by Kill *)
+    if existsb terminal (firstn (N.to_nat (mo_before_kill o)) sts) then 21 else 7
   else if basic && negb killed && last_is_stop l false && Nat.leb (starts l) 1 &&
           (mo_main_alive o || mo_gc_alive o) then
     if negb (mo_main_alive o) && existsb is_exit l then 13                  (* main had left, its child stays *)
